@@ -592,7 +592,7 @@ Theorem C18_issue_all_log :
                   EvIssue (c, n, height s, i + Z.of_nat (fst jp)) (snd jp) (c_cons rc)
                     (fee_of s rc (snd jp)))
              (combine (seq 0 (length provs)) provs)) ++ log s.
-Proof. exact issue_all_log. Qed.
+Proof. exact issue_all_log_pos. Qed.
 Print Assumptions C18_issue_all_log.
 
 Theorem C18_initiate_requests_event_index :
@@ -925,3 +925,84 @@ Theorem C18_due_expired_in_store_order :
                                       (GetExpiredRequestBatchKey (enc_ctx hb c') h)) (due q h).
 Proof. exact due_expired_in_store_order. Qed.
 Print Assumptions C18_due_expired_in_store_order.
+
+(* ------------------------------------------------------------------ *)
+(* reachable states (Proofs/GapC18Trace.v: new trace invariants over Reach) *)
+From SVC Require Import Proofs.GapC18Trace.
+
+(* facet 5, client side (client/utils/query.go QueryRequestByTxQuery takes the first
+   new_batch_request event of the context in the block): a context starts at most one batch
+   per block, so (context, height) determines the batch *)
+Theorem C18_one_batch_start_per_block :
+  forall (cfg : Params) (s : State) (c : CtxId) (n n' h k k' : Z),
+    wf_cfg cfg -> Reach cfg s ->
+    In (EvBatchStart c n h k) (log s) -> In (EvBatchStart c n' h k') (log s) ->
+    n = n' /\ k = k'.
+Proof. exact one_batch_start_per_block. Qed.
+Print Assumptions C18_one_batch_start_per_block.
+
+Theorem C18_batch_start_height :
+  forall (cfg : Params) (s : State) (c : CtxId) (n h k : Z),
+    wf_cfg cfg -> Reach cfg s -> In (EvBatchStart c n h k) (log s) -> h <= height s.
+Proof. exact batch_start_height. Qed.
+Print Assumptions C18_batch_start_height.
+
+(* facet 6: the ranges of the fields of every stored request id.  HEIGHT_BOUND = 2^62. *)
+Theorem C18_reachable_rid_ranges :
+  forall (cfg : Params) (s : State) (r : ReqId) (q : Req),
+    wf_cfg cfg -> Reach cfg s -> get r (reqs s) = Some q ->
+    1 <= rid_batch r <= rid_height r
+    /\ 1 <= rid_height r <= height s /\ rid_height r < HEIGHT_BOUND
+    /\ 0 <= rid_index r < 10
+    /\ exists rc : Ctx, get (rid_ctx r) (ctxs s) = Some rc
+         /\ rid_batch r = c_counter rc /\ 0 <= rid_index r < c_breq rc /\ c_breq rc <= 10.
+Proof. exact reachable_rid_ranges. Qed.
+Print Assumptions C18_reachable_rid_ranges.
+
+Theorem C18_reachable_counter_le_height :
+  forall (cfg : Params) (s : State) (c : CtxId) (rc : Ctx),
+    wf_cfg cfg -> Reach cfg s -> get c (ctxs s) = Some rc -> 0 <= c_counter rc <= height s.
+Proof. exact reachable_counter_le_height. Qed.
+Print Assumptions C18_reachable_counter_le_height.
+
+(* the context id itself (transaction hash, message index) is handed in by the host: its
+   shape stays a hypothesis; everything else of rid_ok / nn_rid holds by reachability *)
+Theorem C18_reachable_rid_ok :
+  forall (cfg : Params) (s : State) (r : ReqId) (q : Req),
+    wf_cfg cfg -> Reach cfg s -> get r (reqs s) = Some q -> cid_ok (rid_ctx r) -> rid_ok r.
+Proof. exact reachable_rid_ok. Qed.
+Print Assumptions C18_reachable_rid_ok.
+
+Theorem C18_reachable_nn_rid :
+  forall (cfg : Params) (s : State) (r : ReqId) (q : Req),
+    wf_cfg cfg -> Reach cfg s -> get r (reqs s) = Some q -> nn_cid (rid_ctx r) -> nn_rid r.
+Proof. exact reachable_nn_rid. Qed.
+Print Assumptions C18_reachable_nn_rid.
+
+Theorem C18_reachable_enc_rid_inj :
+  forall (cfg : Params) (s : State) (hb : Z -> bytes) (r : ReqId) (q : Req) (r' : ReqId) (q' : Req),
+    (forall a : Z, hash_ok a -> length (hb a) = 32%nat) ->
+    (forall a b : Z, hash_ok a -> hash_ok b -> hb a = hb b -> a = b) ->
+    wf_cfg cfg -> Reach cfg s -> get r (reqs s) = Some q -> get r' (reqs s) = Some q' ->
+    cid_ok (rid_ctx r) -> cid_ok (rid_ctx r') ->
+    GetRequestKey (enc_rid hb r) = GetRequestKey (enc_rid hb r') -> r = r'.
+Proof. exact reachable_enc_rid_inj. Qed.
+Print Assumptions C18_reachable_enc_rid_inj.
+
+Theorem C18_reachable_request_order :
+  forall (cfg : Params) (s : State) (hb : Z -> bytes) (r : ReqId) (q : Req) (r' : ReqId) (q' : Req),
+    (forall a : Z, hash_ok a -> length (hb a) = 32%nat) ->
+    (forall a b : Z, hash_ok a -> hash_ok b -> a < b -> blt (hb a) (hb b)) ->
+    wf_cfg cfg -> Reach cfg s -> get r (reqs s) = Some q -> get r' (reqs s) = Some q' ->
+    nn_cid (rid_ctx r) -> nn_cid (rid_ctx r') ->
+    (rid_leb r r' = true
+     <-> ble (GetRequestKey (enc_rid hb r)) (GetRequestKey (enc_rid hb r'))).
+Proof. exact reachable_request_order. Qed.
+Print Assumptions C18_reachable_request_order.
+
+(* on a concrete reachable state (ExB.s_a followed by one EndBlock) *)
+Theorem C18_reachable_rid_ranges_ex :
+  get (ExB.c1, 1, 1, 1) (reqs ExT.s_e) = Some (mkReq 11 30 21 true)
+  /\ rid_ok (ExB.c1, 1, 1, 1) /\ nn_rid (ExB.c1, 1, 1, 1).
+Proof. exact ExT.reachable_rid_ranges_ex. Qed.
+Print Assumptions C18_reachable_rid_ranges_ex.
